@@ -352,6 +352,38 @@ def roles(ctx, res):
                    f"(getattr_delegate maps each hop with its own object)",
                    [f"{CREL}:{l}" for l in dict.fromkeys(bad_h[2].lines) if l]
                    if bad_h else None)
+        # ... and the next object of the chain is read from that same owner
+        bad_n = None
+        n_next = 0
+        for p in ps:
+            for it in p.trace:
+                if it[0] != "call" or it[1] not in ("PyDict_GetItem",
+                                                    "has_traits_getattro"):
+                    continue
+                a = it[2]
+                if len(a) < 2 or not a[1].endswith("->delegate_name"):
+                    continue
+                ttext = a[1][:-len("->delegate_name")]
+                holder = _trait_holder(ttext, prm, objp_)
+                if holder is None:
+                    continue
+                src = a[0][:-len("->obj_dict")] \
+                    if a[0].endswith("->obj_dict") else a[0]
+                n_next += 1
+                if src != holder and bad_n is None:
+                    bad_n = (it, src, holder, p)
+        if n_next == 0:
+            raise AnalysisError(f"{fname}: no delegate lookup recognised")
+        res.oblige(bad_n is None, f"{fname}:chain-next",
+                   f"{CREL}:{bad_n[0][4]}" if bad_n else "",
+                   f"{fname}: the next object of a deferral chain is read "
+                   f"from `{bad_n[1][:50] if bad_n else ''}` although the "
+                   f"deferring trait of that hop belongs to "
+                   f"`{bad_n[2][:60] if bad_n else ''}`: from the second hop "
+                   f"on the chain is followed on the wrong object (it loops "
+                   f"on the first delegate until the recursion limit)",
+                   [f"{CREL}:{l}" for l in dict.fromkeys(bad_n[3].lines) if l]
+                   if bad_n else None)
         res.instance(f"{fname}:chain", facts.loc(facts.func(fname)),
                      second_hops=n_chain)
         if n_chain == 0:
@@ -650,3 +682,98 @@ def listener_restore(ctx, res):
                f"after `del obj.x` restores the link, changes of the "
                f"prototype are no longer announced on obj.x")
     res.floor(1)
+
+
+# ---------------------------------------------------------------------------
+# C11.listener-inheritance: with several HasTraits bases the first base (MRO
+# order) that defines a name provides its class trait.  The forwarding-
+# listener pattern (and the property observe states) recorded for that name
+# must come from the *same* base.  The metaclass gets this from the order of
+# work inside one loop over the bases: base k's listener / observer entries
+# are taken only if no earlier base (and not the class itself) has defined
+# the name - which is read off `class_traits`, filled base by base - and only
+# then base k's class traits are merged.
+
+@rule("C11.listener-inheritance", ["C11", "C12", "C16"],
+      "the metaclass inherits a name's listener / observer record from the "
+      "same base class that provides its class trait: inside one loop over "
+      "the bases, the records are merged under `name not in class_traits` "
+      "before that base's class traits are merged")
+def listener_inheritance(ctx, res):
+    repo = get_pyrepo(ctx)
+    mod = repo.module(HT)
+    fn = repo.inlined(HT, "update_traits_class_dict")
+    # tables by the key they are published under
+    pub = {}
+    for a in ast.walk(fn):
+        if isinstance(a, ast.Assign) and len(a.targets) == 1 \
+                and isinstance(a.targets[0], ast.Subscript) \
+                and norm(a.targets[0].value) == "class_dict" \
+                and isinstance(a.value, ast.Name):
+            pub[norm(a.targets[0].slice)] = a.value.id
+    for k in ("ClassTraits", "ListenerTraits", "ObserverTraits"):
+        if k not in pub:
+            raise AnalysisError(f"update_traits_class_dict: class_dict[{k}]")
+    ct = pub["ClassTraits"]
+    base_loops = [l for l in ast.walk(fn) if isinstance(l, ast.For)
+                  and any(isinstance(c, ast.Attribute) and c.attr == "__dict__"
+                          and norm(c.value) == norm(l.target)
+                          for c in ast.walk(l))
+                  and not isinstance(l.target, ast.Tuple)]
+
+    def writes(stmt, table):
+        return any(isinstance(a, ast.Assign) and any(
+            isinstance(t, ast.Subscript) and norm(t.value) == table
+            for t in a.targets) for a in ast.walk(stmt))
+
+    def guarded_by_absent(stmt, table):
+        """every store into `table` inside stmt sits under a test containing
+        `<key> not in <class traits>`"""
+        ok = True
+        for i in ast.walk(stmt):
+            if isinstance(i, ast.If):
+                inside = any(writes(b, table) for b in i.body)
+                if inside and f"not in {ct}" not in norm(i.test):
+                    ok = False
+        for a in ast.walk(stmt):
+            if isinstance(a, ast.Assign) and writes(a, table):
+                # must be inside some If of stmt
+                if not any(isinstance(i, ast.If) and any(
+                        a in list(ast.walk(b)) for b in i.body)
+                        for i in ast.walk(stmt)):
+                    ok = False
+        return ok
+
+    for key in ("ListenerTraits", "ObserverTraits"):
+        table = pub[key]
+        n_ok = 0
+        why = "no loop over the base classes merges it"
+        for lp in base_loops:
+            body = lp.body
+            iw = [i for i, s_ in enumerate(body) if writes(s_, table)]
+            ic = [i for i, s_ in enumerate(body) if writes(s_, ct)]
+            if not iw:
+                continue
+            if not ic:
+                why = (f"`{table}` is merged in a loop over the bases that "
+                       f"does not also merge `{ct}`: the test "
+                       f"`name not in {ct}` then no longer means 'no earlier "
+                       f"base defines the name'")
+                continue
+            if max(iw) > min(ic):
+                why = (f"`{table}` is merged after `{ct}` within the loop "
+                       f"body: the base's own names are already present and "
+                       f"nothing is inherited")
+                continue
+            if not all(guarded_by_absent(body[i], table) for i in iw):
+                why = (f"a store into `{table}` is not guarded by "
+                       f"`name not in {ct}`")
+                continue
+            n_ok += 1
+        res.instance(f"metaclass:{key}", mod.loc(fn), table=table)
+        res.oblige(n_ok == 1, f"metaclass:{key}:same-base", mod.loc(fn),
+                   f"{why}: with two bases defining the same deferred / "
+                   f"observed name, the class trait comes from the first base "
+                   f"and the listener record from another one (the listener "
+                   f"watches the wrong `delegate:attr` pattern)")
+    res.floor(2)
